@@ -76,6 +76,14 @@ impl StorageData for AnyStorage {
         }
     }
 
+    fn rollback(&mut self) -> Result<(), DbError> {
+        match self {
+            AnyStorage::MemoryMapped(s) => s.rollback(),
+            AnyStorage::Memory(s) => s.rollback(),
+            AnyStorage::File(s) => s.rollback(),
+        }
+    }
+
     fn resize(&mut self, new_len: u64) -> Result<(), DbError> {
         match self {
             AnyStorage::MemoryMapped(s) => s.resize(new_len),
